@@ -250,7 +250,7 @@ class ParseMCNPCell:
                 keywords['lattice'] = self.parse_lat_kw(kw_list)
             elif 'trcl' in elt:
                 keywords['trcl'] = self.parse_trcl_kw(elt, kw_list)
-            elif 'u' in elt:
+            elif elt == 'u':
                 # U=-n is universe n (the minus sign is only a hint that the
                 # cell is not truncated by the boundary of the filled cell)
                 keywords['u'] = abs(int(float(kw_list.pop())))
